@@ -165,6 +165,18 @@ def c15_r2(ctx):
                         if f.origins_of_operand(sc.args[1]) == lp["elem"]:
                             ok = True
         if not ok:
+            # the hash of this entry taken through a function that is not one of the two hashers
+            # (a dispatcher introduced by a refactoring, recursive with this one): not read
+            for o in f.origins_of_operand(c.args[1]):
+                if is_call(o, "ticket::TicketFactory::result"):
+                    rs = f.call_at[o[0][2]]
+                    for s2 in f.origins_of_operand(rs.args[0]):
+                        if is_call(s2) and s2[1:] == (("variant", "Ok"), ("field", 0)):
+                            sc = f.call_at[s2[0][2]]
+                            tg = ctx.P.local_targets(sc)
+                            if tg and tg[0] not in ("ticket::TicketFactory::from_file", "ticket::TicketFactory::from_directory") \
+                                    and any(f.origins_of_operand(a) == lp["elem"] for a in sc.args):
+                                raise AnalysisError("idiom not recognised: %s hashes an entry through %s, which is not one of the two hashers" % (f.id, tg[0]))
             ctx.viol((f.id, "entry-foreign-ticket"), "the ticket mixed in for an entry is not the hash of that entry", c.where)
         v = f.vars_of_operand(c.args[0])
         fac = v if fac is None else fac
@@ -866,6 +878,10 @@ def c19_r3(ctx):
             if all(any(st == ("field", "infos") for st in o) and not any(st[0] == "truncate" for st in o) for o in _through_collect(ds, src)) and src \
                     and all(is_call(o, "std::iter::Iterator::collect") for o in src):
                 okj = True
+    if not okj and any(lp["iter"] and all(o[0][0] == "param" and ("field", "infos") not in o for o in lp["iter"]) for lp in ds.loops()):
+        # `self.into_iter()` through an `impl IntoIterator for &FileStateVec` of the crate's own:
+        # what that yields is in the impl, which this reader does not follow
+        raise AnalysisError("idiom not recognised: %s walks the vector through an iterator of its own, not through `infos`" % ds.id)
     if okj:
         ctx.ok()
     else:
